@@ -3,12 +3,14 @@
 //!
 //!   harness conn <cases-file> <obs-out> <aux-out> [--jobs N]
 //!   harness val  <cases-file> <out>     <aux-out> [--jobs N]
+//!   harness tls  <cases-file> <obs-out> <aux-out> [--jobs N]
 //!   harness errtab <out>
 //!
 //! Exit codes: 0 ok, 1 usage / io problem, 2 unparsable input, 3 a case hung (> 20 s).
 
 mod conn;
 mod panics;
+mod tlsmode;
 mod util;
 mod val;
 
@@ -43,6 +45,7 @@ fn usage() -> ! {
     die(
         1,
         "usage: harness conn <cases> <obs-out> <aux-out> [--jobs N] | \
+         harness tls <cases> <obs-out> <aux-out> [--jobs N] | \
          harness val <cases> <out> <aux-out> [--jobs N] | harness errtab <out>",
     )
 }
@@ -312,6 +315,8 @@ struct ConnShared {
     ids: Vec<&'static str>,
     next: AtomicUsize,
     stop: Arc<AtomicBool>,
+    /// `tls` mode instead of `conn` mode
+    tls_mode: bool,
     /// self-test hook for the watchdog (`HARNESS_TEST_HANG_ID`): this case never finishes
     test_hang_id: Option<String>,
 }
@@ -327,7 +332,7 @@ fn conn_worker(sh: Arc<ConnShared>, slot: Slot, tx: Sender<Msg>) {
         }
         slot.store(idx as u64 + 1, Ordering::Relaxed);
         let (a, b) = sh.blocks[idx];
-        let case = match conn::parse_case(&sh.lines[a..=b]) {
+        let case = match conn::parse_case(&sh.lines[a..=b], sh.tls_mode) {
             Ok(c) => c,
             Err((off, msg)) => {
                 let _ = tx.send(Msg::Bad { line: a + off, msg });
@@ -339,8 +344,14 @@ fn conn_worker(sh: Arc<ConnShared>, slot: Slot, tx: Sender<Msg>) {
         {
             let tx2 = tx.clone();
             let slot2 = slot.clone();
+            let tls_mode = sh.tls_mode;
             panics::set_on_abort(Some(Box::new(move |key: &str| {
-                let (obs, aux) = conn::finish_case(&format!("panic {}", key));
+                let result = format!("panic {}", key);
+                let (obs, aux) = if tls_mode {
+                    tlsmode::finish_case(&result)
+                } else {
+                    conn::finish_case(&result)
+                };
                 slot2.store(0, Ordering::Relaxed);
                 let _ = tx2.send(Msg::Done {
                     idx,
@@ -355,7 +366,11 @@ fn conn_worker(sh: Arc<ConnShared>, slot: Slot, tx: Sender<Msg>) {
                 std::thread::park();
             }
         }
-        let (obs, aux) = conn::run_case(case);
+        let (obs, aux) = if sh.tls_mode {
+            tlsmode::run_case(case)
+        } else {
+            conn::run_case(case)
+        };
         panics::set_on_abort(None);
         slot.store(0, Ordering::Relaxed);
         if tx
@@ -373,7 +388,7 @@ fn conn_worker(sh: Arc<ConnShared>, slot: Slot, tx: Sender<Msg>) {
     let _ = tx.send(Msg::Exit);
 }
 
-fn mode_conn(args: &[String]) -> ! {
+fn mode_conn(args: &[String], tls_mode: bool) -> ! {
     if args.len() < 3 {
         usage();
     }
@@ -461,10 +476,11 @@ fn mode_conn(args: &[String]) -> ! {
         ids,
         next: AtomicUsize::new(first),
         stop: stop.clone(),
+        tls_mode,
         test_hang_id: std::env::var("HARNESS_TEST_HANG_ID").ok(),
     });
     let base_args: Vec<String> = vec![
-        "conn".to_string(),
+        if tls_mode { "tls" } else { "conn" }.to_string(),
         args[0].clone(),
         args[1].clone(),
         args[2].clone(),
@@ -698,7 +714,8 @@ fn main() {
         usage();
     }
     match args[0].as_str() {
-        "conn" => mode_conn(&args[1..]),
+        "conn" => mode_conn(&args[1..], false),
+        "tls" => mode_conn(&args[1..], true),
         "val" => mode_val(&args[1..]),
         "errtab" => mode_errtab(&args[1..]),
         _ => usage(),
